@@ -6,19 +6,19 @@ import CaddyModel.C05.Spec
 
 namespace CaddyModel.C05
 
-def Out.isErr : Out → Bool
-  | .err _ _ _ => true
-  | .done _ _ => false
+def Out.isMarker : Out → Bool
+  | .reached _ _ => true
+  | _ => false
 
-/-- "this rest-of-the-chain never returns a Go error" -/
-def NoErrK (k : K) : Prop := ∀ r t, (k r t).isErr = false
+/-- "this rest-of-the-chain never returns the subroute marker" -/
+def NoMarkK (k : K) : Prop := ∀ r t, (k r t).isMarker = false
 
-theorem noErr_emptyK : NoErrK emptyK := fun _ _ => rfl
-theorem noErr_errorEmptyK : NoErrK errorEmptyK := fun _ _ => rfl
-theorem noErr_termK (e : Req) : NoErrK (termK e) := by
+theorem noMark_emptyK : NoMarkK emptyK := fun _ _ => rfl
+theorem noMark_errorEmptyK : NoMarkK errorEmptyK := fun _ _ => rfl
+theorem noMark_termK (e : Req) : NoMarkK (termK e) := by
   unfold termK; split
-  · exact noErr_errorEmptyK
-  · exact noErr_emptyK
+  · exact noMark_errorEmptyK
+  · exact noMark_emptyK
 
 /-! ### matchers that contain no error matcher never report an error -/
 
@@ -70,51 +70,40 @@ theorem anyMatch_noerr (sets : List (List Matcher)) (r : Req) (h : setsCanErr se
   · simp
   · exact evalAny_noerr sets r h st
 
-/-! ### a chain that contains nothing that can fail never returns an error -/
+/-! ### the subroute marker never leaves `Subroute.ServeHTTP` -/
 
 mutual
-theorem runHandlers_noerr : ∀ (hs : List Handler) (k : K), hsCanFail hs = false → NoErrK k → NoErrK (runHandlers hs k)
-  | [], k, _, hk => by simpa [runHandlers] using hk
-  | h :: hs, k, hf, hk => by
-    simp only [hsCanFail, Bool.or_eq_false_iff] at hf
-    rw [runHandlers]
-    exact runHandler_noerr h _ hf.1 (runHandlers_noerr hs k hf.2 hk)
-theorem runHandler_noerr : ∀ (h : Handler) (k : K), hCanFail h = false → NoErrK k → NoErrK (runHandler h k)
-  | .pass id, k, _, hk => fun r t => by simp [runHandler, hk _ _]
-  | .respond id st, k, _, _ => fun r t => by simp [runHandler, Out.isErr]
-  | .rewrite id p, k, _, hk => fun r t => by simp [runHandler, hk _ _]
-  | .fail id st, k, hf, _ => by simp [hCanFail] at hf
-  | .raise src, k, hf, _ => by simp [hCanFail] at hf
-  | .invoke n, k, hf, _ => by simp [hCanFail] at hf
-  | .answer src, k, hf, _ => fun r t => by
-    cases src <;> simp [hCanFail] at hf <;> simp [runHandler, Src.resolve, Out.isErr]
-  | .sub rs hasErrs errs, k, hf, hk => fun r t => by
+theorem runHandlers_nomark : ∀ (hs : List Handler) (k : K), NoMarkK k → NoMarkK (runHandlers hs k)
+  | [], k, hk => by simpa [runHandlers] using hk
+  | h :: hs, k, hk => by
+    rw [runHandlers]; exact runHandler_nomark h _ (runHandlers_nomark hs k hk)
+theorem runHandler_nomark : ∀ (h : Handler) (k : K), NoMarkK k → NoMarkK (runHandler h k)
+  | .pass id, k, hk => fun r t => by simp [runHandler, hk _ _]
+  | .respond id st, k, _ => fun r t => by simp [runHandler, Out.isMarker]
+  | .rewrite id p, k, hk => fun r t => by simp [runHandler, hk _ _]
+  | .fail id st, k, _ => fun r t => by simp [runHandler, Out.isMarker]
+  | .raise src, k, _ => fun r t => by simp [runHandler, Out.isMarker]
+  | .invoke n, k, _ => fun r t => by simp [runHandler, Out.isMarker]
+  | .answer src, k, _ => fun r t => by
+    cases src <;> simp only [runHandler, Src.resolve] <;> (try cases r.replStatus) <;> simp [Out.isMarker]
+  | .sub rs hasErrs errs, k, hk => fun r t => by
     simp only [runHandler]
-    cases hasErrs with
-    | false =>
-      simp only [hCanFail, Bool.false_eq_true, if_false] at hf
-      have := runRoutes_noerr rs k hf hk r t
-      cases hr : runRoutes rs k r t with
-      | done t' s => simp [Out.isErr]
-      | err t' st r' => simp [hr, Out.isErr] at this
-    | true =>
-      simp only [hCanFail, if_true] at hf
-      cases hr : runRoutes rs k r t with
-      | done t' s => simp [Out.isErr]
-      | err t' st r' => simpa using runRoutes_noerr errs k hf hk _ _
-theorem runRoutes_noerr : ∀ (rs : List Route) (k : K), rsCanFail rs = false → NoErrK k → NoErrK (runRoutes rs k)
-  | [], k, _, hk => by simpa [runRoutes] using hk
-  | rt :: rs, k, hf, hk => by
-    simp only [rsCanFail, Bool.or_eq_false_iff] at hf
-    rw [runRoutes]
-    exact runRoute_noerr rt _ hf.1 (runRoutes_noerr rs k hf.2 hk)
-theorem runRoute_noerr : ∀ (rt : Route) (k : K), rCanFail rt = false → NoErrK k → NoErrK (runRoute rt k)
-  | .mk g sets hs term, k, hf, hk => fun r t => by
-    simp only [rCanFail, Bool.or_eq_false_iff] at hf
+    cases hr : runRoutes rs reachK r t with
+    | reached r' t' => exact hk r' t'
+    | done t' s => simp [Out.isMarker]
+    | err t' st r' =>
+      cases hasErrs with
+      | false => simp [Out.isMarker]
+      | true => simpa using runRoutes_nomark errs k hk _ _
+theorem runRoutes_nomark : ∀ (rs : List Route) (k : K), NoMarkK k → NoMarkK (runRoutes rs k)
+  | [], k, hk => by simpa [runRoutes] using hk
+  | rt :: rs, k, hk => by
+    rw [runRoutes]; exact runRoute_nomark rt _ (runRoutes_nomark rs k hk)
+theorem runRoute_nomark : ∀ (rt : Route) (k : K), NoMarkK k → NoMarkK (runRoute rt k)
+  | .mk g sets hs term, k, hk => fun r t => by
     simp only [runRoute]
-    have hm := anyMatch_noerr sets r hf.1
-    cases ha : anyMatch sets r with
-    | err st => exact absurd ha (hm st)
+    cases anyMatch sets r with
+    | err st => simp [Out.isMarker]
     | ok b =>
       cases b with
       | false => simpa using hk r t
@@ -122,87 +111,125 @@ theorem runRoute_noerr : ∀ (rt : Route) (k : K), rCanFail rt = false → NoErr
         simp only
         split
         · exact hk r t
-        · apply runHandlers_noerr hs _ hf.2
+        · apply runHandlers_nomark hs _
           split
-          · exact noErr_termK r
+          · exact noMark_termK r
           · exact hk
 end
 
-/-! ### the refinement: code shape = documented rules, when nothing can fail behind a
-subroute that has error routes (`ks` is the static "rest of the chain cannot fail") -/
+/-- the rules never produce the marker as an outcome -/
+def Res.NoMarker : Res → Prop
+  | .stop (.reached _ _) => False
+  | _ => True
+
+theorem termK_not_marker (e r : Req) (t : Trace) : (Res.stop (termK e r t)).NoMarker := by
+  unfold termK; split <;> simp [errorEmptyK, emptyK, Res.NoMarker]
 
 mutual
-theorem hs_ok : ∀ (hs : List Handler) (ks : Bool) (k : K) (r : Req) (t : Trace),
-    hsOk hs ks = true → (ks = true → NoErrK k) →
-    runHandlers hs k r t = (specHandlers hs r t).bind k
-  | [], ks, k, r, t, _, _ => by simp [runHandlers, specHandlers, Res.bind]
-  | h :: hs, ks, k, r, t, ho, hk => by
-    simp only [hsOk, Bool.and_eq_true] at ho
-    have hk' : (ks && !hsCanFail hs) = true → NoErrK (runHandlers hs k) := by
-      intro hh
-      simp only [Bool.and_eq_true, Bool.not_eq_true'] at hh
-      exact runHandlers_noerr hs k hh.2 (hk hh.1)
-    rw [runHandlers, h_ok h _ (runHandlers hs k) r t ho.1 hk', specHandlers]
+theorem specHandlers_no_marker : ∀ (hs : List Handler) (r : Req) (t : Trace), (specHandlers hs r t).NoMarker
+  | [], r, t => by simp [specHandlers, Res.NoMarker]
+  | h :: hs, r, t => by
+    rw [specHandlers]
+    have h1 := specHandler_no_marker h r t
     cases hh : specHandler h r t with
-    | cont r' t' => simp [Res.bind, hs_ok hs ks k r' t' ho.2 hk]
+    | cont r' t' => exact specHandlers_no_marker hs r' t'
+    | stop o => rw [hh] at h1; exact h1
+theorem specHandler_no_marker : ∀ (h : Handler) (r : Req) (t : Trace), (specHandler h r t).NoMarker
+  | .pass id, r, t => by simp [specHandler, Res.NoMarker]
+  | .respond id st, r, t => by simp [specHandler, Res.NoMarker]
+  | .rewrite id p, r, t => by simp [specHandler, Res.NoMarker]
+  | .fail id st, r, t => by simp [specHandler, Res.NoMarker]
+  | .raise src, r, t => by simp [specHandler, Res.NoMarker]
+  | .invoke n, r, t => by simp [specHandler, Res.NoMarker]
+  | .answer src, r, t => by
+    cases src <;> simp only [specHandler, Src.resolve] <;> (try cases r.replStatus) <;> simp [Res.NoMarker]
+  | .sub rs hasErrs errs, r, t => by
+    rw [specHandler]
+    cases hs : specRoutes rs r t with
+    | cont r' t' => simp [Res.NoMarker]
+    | stop o =>
+      cases o with
+      | done t' s => simp [Res.NoMarker]
+      | reached r' t' => simp [Res.NoMarker]
+      | err t' st r' =>
+        cases hasErrs with
+        | false => simp [Res.NoMarker]
+        | true => simpa using specRoutes_no_marker errs (withError st r') t'
+theorem specRoutes_no_marker : ∀ (rs : List Route) (r : Req) (t : Trace), (specRoutes rs r t).NoMarker
+  | [], r, t => by simp [specRoutes, Res.NoMarker]
+  | rt :: rs, r, t => by
+    rw [specRoutes]
+    have h1 := specRoute_no_marker rt r t
+    cases hh : specRoute rt r t with
+    | cont r' t' => exact specRoutes_no_marker rs r' t'
+    | stop o => rw [hh] at h1; exact h1
+theorem specRoute_no_marker : ∀ (rt : Route) (r : Req) (t : Trace), (specRoute rt r t).NoMarker
+  | .mk g sets hs term, r, t => by
+    rw [specRoute]
+    cases anyMatch sets r with
+    | err st => simp [Res.NoMarker]
+    | ok b =>
+      cases b with
+      | false => simp [Res.NoMarker]
+      | true =>
+        simp only
+        split
+        · simp [Res.NoMarker]
+        · have h1 := specHandlers_no_marker hs (markGroup g r) t
+          cases hh : specHandlers hs (markGroup g r) t with
+          | cont r' t' =>
+            cases term with
+            | true => simpa using termK_not_marker r r' t'
+            | false => simp [Res.NoMarker]
+          | stop o => rw [hh] at h1; exact h1
+end
+
+/-! ### the refinement: code shape = documented rules, for every tree and every continuation -/
+
+mutual
+theorem hs_ok : ∀ (hs : List Handler) (k : K) (r : Req) (t : Trace),
+    runHandlers hs k r t = (specHandlers hs r t).bind k
+  | [], k, r, t => by simp [runHandlers, specHandlers, Res.bind]
+  | h :: hs, k, r, t => by
+    rw [runHandlers, h_ok h (runHandlers hs k) r t, specHandlers]
+    cases hh : specHandler h r t with
+    | cont r' t' => simp [Res.bind, hs_ok hs k r' t']
     | stop o => simp [Res.bind]
-theorem h_ok : ∀ (h : Handler) (ks : Bool) (k : K) (r : Req) (t : Trace),
-    hOk h ks = true → (ks = true → NoErrK k) →
+theorem h_ok : ∀ (h : Handler) (k : K) (r : Req) (t : Trace),
     runHandler h k r t = (specHandler h r t).bind k
-  | .pass id, ks, k, r, t, _, _ => by simp [runHandler, specHandler, Res.bind]
-  | .respond id st, ks, k, r, t, _, _ => by simp [runHandler, specHandler, Res.bind]
-  | .rewrite id p, ks, k, r, t, _, _ => by simp [runHandler, specHandler, Res.bind]
-  | .fail id st, ks, k, r, t, _, _ => by simp [runHandler, specHandler, Res.bind]
-  | .raise src, ks, k, r, t, _, _ => by simp [runHandler, specHandler, Res.bind]
-  | .invoke n, ks, k, r, t, _, _ => by simp [runHandler, specHandler, Res.bind]
-  | .answer src, ks, k, r, t, _, _ => by
+  | .pass id, k, r, t => by simp [runHandler, specHandler, Res.bind]
+  | .respond id st, k, r, t => by simp [runHandler, specHandler, Res.bind]
+  | .rewrite id p, k, r, t => by simp [runHandler, specHandler, Res.bind]
+  | .fail id st, k, r, t => by simp [runHandler, specHandler, Res.bind]
+  | .raise src, k, r, t => by simp [runHandler, specHandler, Res.bind]
+  | .invoke n, k, r, t => by simp [runHandler, specHandler, Res.bind]
+  | .answer src, k, r, t => by
     cases src <;> simp only [runHandler, specHandler, Res.bind] <;>
       (try cases Src.resolve _ r) <;> simp
-  | .sub rs hasErrs errs, ks, k, r, t, ho, hk => by
+  | .sub rs hasErrs errs, k, r, t => by
     simp only [runHandler, specHandler]
-    cases hasErrs with
-    | false =>
-      simp only [hOk, Bool.false_eq_true, if_false] at ho
-      rw [rs_ok rs ks k r t ho hk]
-      cases hs : specRoutes rs r t with
-      | cont r' t' =>
-        simp only [Res.bind]
-        cases hkk : k r' t' <;> simp
-      | stop o => cases o <;> simp [Res.bind]
-    | true =>
-      simp only [hOk, if_true, Bool.and_eq_true] at ho
-      obtain ⟨⟨hks, hrs⟩, hes⟩ := ho
-      rw [rs_ok rs ks k r t hrs hk]
-      cases hs : specRoutes rs r t with
-      | cont r' t' =>
-        simp only [Res.bind]
-        have hne := hk hks r' t'
-        cases hkk : k r' t' with
-        | done t'' s => rfl
-        | err t'' st r'' => simp [hkk, Out.isErr] at hne
-      | stop o =>
-        cases o with
-        | done t' s => simp [Res.bind]
-        | err t' st r' => simp [Res.bind, rs_ok errs ks k _ t' hes hk]
-theorem rs_ok : ∀ (rs : List Route) (ks : Bool) (k : K) (r : Req) (t : Trace),
-    rsOk rs ks = true → (ks = true → NoErrK k) →
+    rw [rs_ok rs reachK r t]
+    cases hs : specRoutes rs r t with
+    | cont r' t' => simp [Res.bind, reachK]
+    | stop o =>
+      cases o with
+      | done t' s => simp [Res.bind]
+      | reached r' t' => simp [Res.bind]
+      | err t' st r' =>
+        cases hasErrs with
+        | false => simp [Res.bind]
+        | true => simp [Res.bind, rs_ok errs k _ t']
+theorem rs_ok : ∀ (rs : List Route) (k : K) (r : Req) (t : Trace),
     runRoutes rs k r t = (specRoutes rs r t).bind k
-  | [], ks, k, r, t, _, _ => by simp [runRoutes, specRoutes, Res.bind]
-  | rt :: rs, ks, k, r, t, ho, hk => by
-    simp only [rsOk, Bool.and_eq_true] at ho
-    have hk' : (ks && !rsCanFail rs) = true → NoErrK (runRoutes rs k) := by
-      intro hh
-      simp only [Bool.and_eq_true, Bool.not_eq_true'] at hh
-      exact runRoutes_noerr rs k hh.2 (hk hh.1)
-    rw [runRoutes, r_ok rt _ (runRoutes rs k) r t ho.1 hk', specRoutes]
+  | [], k, r, t => by simp [runRoutes, specRoutes, Res.bind]
+  | rt :: rs, k, r, t => by
+    rw [runRoutes, r_ok rt (runRoutes rs k) r t, specRoutes]
     cases hh : specRoute rt r t with
-    | cont r' t' => simp [Res.bind, rs_ok rs ks k r' t' ho.2 hk]
+    | cont r' t' => simp [Res.bind, rs_ok rs k r' t']
     | stop o => simp [Res.bind]
-theorem r_ok : ∀ (rt : Route) (ks : Bool) (k : K) (r : Req) (t : Trace),
-    rOk rt ks = true → (ks = true → NoErrK k) →
+theorem r_ok : ∀ (rt : Route) (k : K) (r : Req) (t : Trace),
     runRoute rt k r t = (specRoute rt r t).bind k
-  | .mk g sets hs term, ks, k, r, t, ho, hk => by
-    simp only [rOk] at ho
+  | .mk g sets hs term, k, r, t => by
     simp only [runRoute, specRoute]
     cases ha : anyMatch sets r with
     | err st => simp [Res.bind]
@@ -214,15 +241,9 @@ theorem r_ok : ∀ (rt : Route) (ks : Bool) (k : K) (r : Req) (t : Trace),
         by_cases hg : groupDone g r = true
         · simp [hg, Res.bind]
         · simp only [hg]
-          have hk2 : (term || ks) = true → NoErrK (if term then termK r else k) := by
-            intro hh
-            cases term with
-            | true => simpa using noErr_termK r
-            | false => simpa using hk (by simpa using hh)
-          rw [hs_ok hs (term || ks) _ (markGroup g r) t ho hk2]
+          rw [hs_ok hs _ (markGroup g r) t]
           cases specHandlers hs (markGroup g r) t <;> cases term <;> simp [Res.bind]
 end
-
 
 /-! ### matcher sets as propositions -/
 
@@ -285,6 +306,7 @@ def Res.KeepsGroups (x : Res) (gs : List Nat) : Prop :=
   | .cont r' _ => ∀ g ∈ gs, g ∈ r'.groups
   | .stop (.err _ _ r') => ∀ g ∈ gs, g ∈ r'.groups
   | .stop (.done _ _) => True
+  | .stop (.reached r' _) => ∀ g ∈ gs, g ∈ r'.groups
 
 theorem Res.KeepsGroups.mono {x : Res} {gs gs' : List Nat} (h : x.KeepsGroups gs')
     (hs : ∀ g ∈ gs, g ∈ gs') : x.KeepsGroups gs := by
@@ -293,6 +315,7 @@ theorem Res.KeepsGroups.mono {x : Res} {gs gs' : List Nat} (h : x.KeepsGroups gs
   | stop o =>
     cases o with
     | done t s => trivial
+    | reached r t => exact fun g hg => h g (hs g hg)
     | err t st r => exact fun g hg => h g (hs g hg)
 
 theorem termK_done (e r : Req) (t : Trace) : ∃ s, termK e r t = .done t s := by
@@ -334,6 +357,7 @@ theorem specHandler_keeps : ∀ (h : Handler) (r : Req) (t : Trace), (specHandle
       rw [hs] at h1
       cases o with
       | done t' s => trivial
+      | reached r' t' => exact h1
       | err t' st r' =>
         cases hasErrs with
         | false => exact h1
@@ -382,10 +406,16 @@ def Ev.PlaceholderOk (e : Ev) : Prop := ∀ st, e.err = some st → st ≠ 0 →
 def Out.trace : Out → Trace
   | .done t _ => t
   | .err t _ _ => t
+  | .reached _ t => t
 
-/-- a rest-of-chain that keeps the invariant: from a good request and a good trace, a good trace -/
+/-- an outcome whose events all satisfy the invariant (and, for the subroute marker, whose request
+    does) -/
+def Out.POk (o : Out) : Prop :=
+  (∀ e ∈ o.trace, e.PlaceholderOk) ∧ (∀ r' t', o = .reached r' t' → r'.PlaceholderOk)
+
+/-- a rest-of-chain that keeps the invariant: from a good request and a good trace, a good outcome -/
 def KPlaceholderOk (k : K) : Prop :=
-  ∀ r t, r.PlaceholderOk → (∀ e ∈ t, e.PlaceholderOk) → ∀ e ∈ (k r t).trace, e.PlaceholderOk
+  ∀ r t, r.PlaceholderOk → (∀ e ∈ t, e.PlaceholderOk) → (k r t).POk
 
 theorem withError_ok (st : Nat) (r : Req) : (withError st r).PlaceholderOk := by
   intro st' h hne
@@ -405,8 +435,15 @@ theorem snoc_ok {t : Trace} {e : Ev} (ht : ∀ e ∈ t, e.PlaceholderOk) (he : e
   · exact ht e' h
   · simp at h; subst h; exact he
 
-theorem kOk_emptyK : KPlaceholderOk emptyK := fun _ _ _ ht => ht
-theorem kOk_errorEmptyK : KPlaceholderOk errorEmptyK := fun _ _ _ ht => ht
+theorem pok_done {t : Trace} (s : Option Nat) (ht : ∀ e ∈ t, e.PlaceholderOk) : (Out.done t s).POk :=
+  ⟨ht, fun _ _ h => by cases h⟩
+theorem pok_err {t : Trace} (st : Nat) (r : Req) (ht : ∀ e ∈ t, e.PlaceholderOk) : (Out.err t st r).POk :=
+  ⟨ht, fun _ _ h => by cases h⟩
+
+theorem kOk_emptyK : KPlaceholderOk emptyK := fun _ _ _ ht => pok_done _ ht
+theorem kOk_errorEmptyK : KPlaceholderOk errorEmptyK := fun _ _ _ ht => pok_done _ ht
+theorem kOk_reachK : KPlaceholderOk reachK := fun r t hr ht =>
+  ⟨ht, fun r' t' h => by simp only [reachK] at h; cases h; exact hr⟩
 theorem kOk_termK (e : Req) : KPlaceholderOk (termK e) := by
   unfold termK; split
   · exact kOk_errorEmptyK
@@ -421,26 +458,29 @@ theorem runHandler_pok : ∀ (h : Handler) (k : K), KPlaceholderOk k → KPlaceh
   | .pass id, k, hk => fun r t hr ht => by
     simp only [runHandler]; exact hk r _ hr (snoc_ok ht (ev_ok id r hr))
   | .respond id st, k, _ => fun r t hr ht => by
-    simp only [runHandler, Out.trace]; exact snoc_ok ht (ev_ok id r hr)
+    simp only [runHandler]; exact pok_done _ (snoc_ok ht (ev_ok id r hr))
   | .rewrite id p, k, hk => fun r t hr ht => by
     simp only [runHandler]; exact hk _ _ hr (snoc_ok ht (ev_ok id r hr))
   | .fail id st, k, _ => fun r t hr ht => by
-    simp only [runHandler, Out.trace]; exact snoc_ok ht (ev_ok id r hr)
-  | .raise src, k, _ => fun r t _ ht => by simpa [runHandler, Out.trace] using ht
-  | .invoke n, k, _ => fun r t _ ht => by simpa [runHandler, Out.trace] using ht
+    simp only [runHandler]; exact pok_err _ _ (snoc_ok ht (ev_ok id r hr))
+  | .raise src, k, _ => fun r t _ ht => by simp only [runHandler]; exact pok_err _ _ ht
+  | .invoke n, k, _ => fun r t _ ht => by simp only [runHandler]; exact pok_err _ _ ht
   | .answer src, k, _ => fun r t _ ht => by
     cases src <;> simp only [runHandler, Src.resolve] <;> (try cases r.replStatus) <;>
-      simpa [Out.trace] using ht
+      first | exact pok_done _ ht | exact pok_err _ _ ht
   | .sub rs hasErrs errs, k, hk => fun r t hr ht => by
     simp only [runHandler]
-    have h1 := runRoutes_pok rs k hk r t hr ht
-    cases hrr : runRoutes rs k r t with
-    | done t' s => rw [hrr] at h1; exact h1
+    have h1 := runRoutes_pok rs reachK kOk_reachK r t hr ht
+    cases hrr : runRoutes rs reachK r t with
+    | reached r' t' =>
+      rw [hrr] at h1
+      exact hk r' t' (h1.2 r' t' rfl) h1.1
+    | done t' s => rw [hrr] at h1; exact pok_done _ h1.1
     | err t' st r' =>
       rw [hrr] at h1
       cases hasErrs with
-      | false => exact h1
-      | true => exact runRoutes_pok errs k hk _ t' (withError_ok st r') h1
+      | false => exact pok_err _ _ h1.1
+      | true => exact runRoutes_pok errs k hk _ t' (withError_ok st r') h1.1
 theorem runRoutes_pok : ∀ (rs : List Route) (k : K), KPlaceholderOk k → KPlaceholderOk (runRoutes rs k)
   | [], k, hk => by simpa [runRoutes] using hk
   | rt :: rs, k, hk => by
@@ -449,7 +489,7 @@ theorem runRoute_pok : ∀ (rt : Route) (k : K), KPlaceholderOk k → KPlacehold
   | .mk g sets hs term, k, hk => fun r t hr ht => by
     simp only [runRoute]
     cases anyMatch sets r with
-    | err st => simpa [Out.trace] using ht
+    | err st => exact pok_err _ _ ht
     | ok b =>
       cases b with
       | false => exact hk r t hr ht
